@@ -75,6 +75,9 @@ func callName(c *ssa.CallCommon) string {
 		return c.Method.Name()
 	}
 	if f := c.StaticCallee(); f != nil {
+		if a := accessorOf(f); a != nil {
+			return a.method
+		}
 		return f.Name()
 	}
 	if b, ok := c.Value.(*ssa.Builtin); ok {
@@ -99,13 +102,18 @@ func callPkg(c *ssa.CallCommon) string {
 	return ""
 }
 
-// recvOf returns the receiver value of a method call (invoke: c.Value; static method: Args[0]).
+// recvOf returns the receiver value of a method call (interface or static).
 func recvOf(c *ssa.CallCommon) ssa.Value {
 	if c.IsInvoke() {
 		return c.Value
 	}
-	if f := c.StaticCallee(); f != nil && f.Signature.Recv() != nil && len(c.Args) > 0 {
-		return c.Args[0]
+	if f := c.StaticCallee(); f != nil {
+		if a := accessorOf(f); a != nil && a.series < len(c.Args) {
+			return c.Args[a.series]
+		}
+		if f.Signature.Recv() != nil && len(c.Args) > 0 {
+			return c.Args[0]
+		}
 	}
 	return nil
 }
@@ -115,10 +123,100 @@ func callArgs(c *ssa.CallCommon) []ssa.Value {
 	if c.IsInvoke() {
 		return c.Args
 	}
-	if f := c.StaticCallee(); f != nil && f.Signature.Recv() != nil && len(c.Args) > 0 {
-		return c.Args[1:]
+	if f := c.StaticCallee(); f != nil {
+		if a := accessorOf(f); a != nil {
+			out := []ssa.Value{c.Args[a.index]}
+			if a.value >= 0 {
+				out = append(out, c.Args[a.value])
+			}
+			return out
+		}
+		if f.Signature.Recv() != nil && len(c.Args) > 0 {
+			return c.Args[1:]
+		}
 	}
 	return c.Args
+}
+
+// An accessor is a one-line helper of a models package that reads or writes one element of a series it is handed
+// — `func at(s data.ND1Float64, idx []int) float64 { return s.Get(idx) }`, or the same as a method of a cursor type
+// (`func (step seriesStep) write(s data.ND1Float64, v float64) { s.Set(step, v) }`). Calls of an accessor are read
+// by every rule as the element access they stand for: callName gives Get/Get1/Set/Set1, recvOf the series argument,
+// callArgs the index (vector or number) and, for a write, the value. What qualifies: a single basic block whose only
+// call is that access, with the series, the index and the value each being one of the helper's own parameters, the
+// read's result returned unchanged, and nothing stored anywhere.
+type accessor struct {
+	method               string
+	series, index, value int // positions in the call's argument list (receiver first); value = -1 for reads
+}
+
+var accessorCache = map[*ssa.Function]*accessor{}
+var accessorSeen = map[*ssa.Function]bool{}
+
+func accessorOf(f *ssa.Function) *accessor {
+	if accessorSeen[f] {
+		return accessorCache[f]
+	}
+	accessorSeen[f] = true
+	if f.Blocks == nil || len(f.Blocks) != 1 || !InModule(f) || fnPkg(f) == nil || !strings.HasPrefix(relPkg(fnPkg(f).Path()), "models") {
+		return nil
+	}
+	paramIdx := func(v ssa.Value) int {
+		v = stripConv(v) // a cursor of a named slice type is converted to []int before it is passed on
+		for i, prm := range f.Params {
+			if v == ssa.Value(prm) {
+				return i
+			}
+		}
+		return -1
+	}
+	var acc *accessor
+	var call *ssa.Call
+	for _, ins := range f.Blocks[0].Instrs {
+		switch x := ins.(type) {
+		case *ssa.DebugRef, *ssa.ChangeType, *ssa.Convert:
+		case *ssa.Call:
+			if acc != nil || !x.Common().IsInvoke() {
+				return nil
+			}
+			nm := x.Common().Method.Name()
+			want := 1
+			if nm == "Set" || nm == "Set1" {
+				want = 2
+			} else if nm != "Get" && nm != "Get1" {
+				return nil
+			}
+			if len(x.Common().Args) != want {
+				return nil
+			}
+			a := &accessor{method: nm, series: paramIdx(x.Common().Value), index: paramIdx(x.Common().Args[0]), value: -1}
+			if want == 2 {
+				a.value = paramIdx(x.Common().Args[1])
+				if a.value < 0 {
+					return nil
+				}
+			}
+			if a.series < 0 || a.index < 0 {
+				return nil
+			}
+			acc, call = a, x
+		case *ssa.Return:
+			if acc == nil {
+				return nil
+			}
+			if acc.value < 0 {
+				if len(x.Results) != 1 || x.Results[0] != ssa.Value(call) {
+					return nil
+				}
+			} else if len(x.Results) != 0 {
+				return nil
+			}
+		default:
+			return nil
+		}
+	}
+	accessorCache[f] = acc
+	return acc
 }
 
 // ---------- instruction iteration ----------
